@@ -5,27 +5,27 @@ theorems, which correspondence slices and monitor streams decide it."""
 PROPS = {
     "C01": {
         "title": "A machine never executes two tasks at once",
-        "lean": ["TopsimProps.C02", "TopsimProps.SysSafety", "TopsimProofs.Bridge.Queries"],
+        "lean": ["TopsimProps.C02", "TopsimProps.SysSafety", "TopsimProofs.Bridge.Queries", "TopsimProps.L3"],
         "streams": [("default", 24, 300), ("adversary", 24, 400), ("chaotic", 24, 400), ("clusterops", 30, 600), ("big", 6, 80)],
         "monitor": ["C01"],
         "files": ["topsim/core/scheduler.py", "topsim/core/cluster.py", "topsim/core/task.py"],
     },
     "C02": {
         "title": "Every machine is in exactly one resource pool; counts are true",
-        "lean": ["TopsimProps.C02", "TopsimProps.SysSafety"],
+        "lean": ["TopsimProps.C02", "TopsimProps.SysSafety", "TopsimProps.L3"],
         "streams": [("default", 24, 300), ("adversary", 16, 300), ("chaotic", 24, 400), ("clusterops", 40, 1200), ("big", 6, 80), ("units", 6, 80), ("batch", 12, 200)],
         "monitor": ["C02"],
     },
     "C03": {
         "title": "Workflow precedence and data-transfer waits are respected",
-        "lean": ["TopsimProps.C03", "TopsimProofs.Bridge.Runtime"],
+        "lean": ["TopsimProps.C03", "TopsimProofs.Bridge.Runtime", "TopsimProps.C03Traj"],
         "streams": [("default", 40, 600), ("contended", 16, 300), ("big", 6, 80), ("units", 8, 100)],
         "direct": ["c06"],
         "monitor": ["C03"],
     },
     "C04": {
         "title": "Everything runs exactly once and a completed run is quiescent",
-        "lean": ["TopsimProps.SysSafety", "TopsimProps.C04", "TopsimProps.C19", "TopsimProofs.Bridge.Queries"],
+        "lean": ["TopsimProps.SysSafety", "TopsimProps.C04", "TopsimProps.C19", "TopsimProofs.Bridge.Queries", "TopsimProps.L3"],
         "streams": [("default", 32, 500), ("adversary", 24, 400), ("chaotic", 16, 300), ("edge", 16, 300), ("hotwait", 12, 200), ("batch", 12, 200)],
         "monitor": ["C04"],
     },
@@ -45,7 +45,7 @@ PROPS = {
     "C07": {
         "title": "Buffer space is conserved and never over- or under-flows",
         "lean": ["TopsimProps.C07", "TopsimProofs.Bridge.BufferArith", "TopsimProofs.Bridge.TierArith", "TopsimProofs.Bridge.Sched"],
-        "streams": [("default", 32, 500), ("sequential", 16, 200), ("overcommit", 8, 60), ("edge", 24, 400)],
+        "streams": [("default", 32, 500), ("sequential", 16, 200), ("overcommit", 8, 60), ("edge", 24, 400), ("hotwait", 8, 100)],
         "monitor": ["C07"],
     },
     "C08": {
@@ -82,7 +82,7 @@ PROPS = {
     },
     "C13": {
         "title": "The event log is complete, correctly timed and causally ordered",
-        "lean": ["TopsimProps.C13", "TopsimProps.Kernel"],
+        "lean": ["TopsimProps.C13", "TopsimProps.Kernel", "TopsimProps.C13Traj"],
         "streams": [("default", 32, 500), ("overlap", 16, 300), ("runlevel", 16, 300), ("runlevel-paused", 24, 400), ("edge", 24, 400)],
         "monitor": ["C13"],
     },
